@@ -695,6 +695,12 @@ func (x *Exec) applyContract(e *ast.CallExpr, st *State, fn *types.Func, c *Cont
 		if rv == nil {
 			rv = x.fresh(st, sig.Recv().Type(), "recv")
 		}
+		if sc, isSc := rv.(Sc); isSc && recvVal != nil {
+			if _, isPtr := sig.Recv().Type().Underlying().(*types.Pointer); isPtr && c.Opts["nilrecv"] != "true" {
+				// the callee's contract assumes a non-nil receiver: the caller owes it
+				x.nilCheck(st, sc.T, e)
+			}
+		}
 		if sc, isSc := rv.(Sc); isSc {
 			if _, isStruct := sig.Recv().Type().Underlying().(*types.Struct); isStruct {
 				// value-receiver method called through a pointer: (*p).M()
